@@ -161,7 +161,8 @@ func (e *Engine) aliasOf(base string, ctx *Ctx) (string, []string) {
 			continue
 		}
 		for i, p := range c.Fn.Params {
-			if base == fmt.Sprintf("%s%d:%s", prefix, i, p.Name()) && i < len(c.Call.Common().Args) {
+			if base == fmt.Sprintf("%s%d", prefix, i) && i < len(c.Call.Common().Args) {
+				_ = p
 				t := e.Eval(c.Call.Common().Args[i], c.Parent)
 				b, path := splitPlace(t)
 				return b.String(), path
@@ -399,12 +400,7 @@ func (e *Engine) eval(v ssa.Value, ctx *Ctx) *Term {
 	return e.mk(OpUnknown, fmt.Sprintf("%T", v), v)
 }
 
-func globalName(g *ssa.Global) string {
-	if g.Pkg == nil {
-		return g.Name()
-	}
-	return strings.TrimPrefix(g.Pkg.Pkg.Path(), load.RepoModule+"/") + "." + g.Name()
-}
+func globalName(g *ssa.Global) string { return load.GlobalName(g) }
 
 func fieldName(t types.Type, idx int) string {
 	if p, ok := t.Underlying().(*types.Pointer); ok {
@@ -425,7 +421,7 @@ func (e *Engine) evalParam(x *ssa.Parameter, ctx *Ctx) *Term {
 		}
 	}
 	own := func() *Term {
-		return e.mk(OpParam, fmt.Sprintf("%s#%d:%s", shortFn(fn), idx, x.Name()), x)
+		return e.mk(OpParam, fmt.Sprintf("%s#%d", shortFn(fn), idx), x)
 	}
 	if ctx.Fn != fn {
 		// value of an enclosing function reached through a closure: resolve there
